@@ -153,8 +153,8 @@ def r4(ctx):
         l_ = lin(ctx, fc.arg_origin(sr[0], 2)) if sr else None
         good = bool(sr) and strip(fc.arg_origin(sr[0], 1)) == ("param", "start") and l_ == {"end": 1, "start": -1} and term_is_lit(fc.arg_origin(sr[0], 3), 0)
         ctx.check(P, rule, "clear drops exactly [start, end) from the bitfield", good, "set_range(start, end - start, false)", "bitfield range cleared is (%s, %s)" % (term_str(fc.arg_origin(sr[0], 1)), l_), key="C01|C01.R4|clear bitfield range")
-        sw = [x for x in bool_switches(fc, lambda o: o[0] == "bin" and o[1] == "Ge" and strip(o[2]) == ("param", "start") and strip(o[3]) == ("param", "end"))]
-        ctx.check(P, rule, "an empty range is a no-op", bool(sw) and edge_returns_without(fc, sw[0][2], oc + sr)[0], "start >= end returns before any effect", "start >= end is not an effect-free early return")
+        sw = [x for x in bool_switches(fc, lambda o: o[0] == "bin" and o[1] == "Lt" and strip(o[2]) == ("param", "start") and strip(o[3]) == ("param", "end"))]
+        ctx.check(P, rule, "an empty range is a no-op", bool(sw) and edge_returns_without(fc, sw[0][3], oc + sr)[0], "start >= end returns before any effect", "start >= end is not an effect-free early return")
     fo = ctx.fn(OPLOG_CLEAR)
     if need(ctx, P, rule, OPLOG_CLEAR, fo):
         ent = [fo.origin_rvalue(st["rv"], b.i, si) for b in fo.live() for si, st in enumerate(b.stmts) if st["k"] == "assign" and st["rv"]["k"] == "agg" and st["rv"].get("name", "").endswith("BitfieldUpdate")]
